@@ -47,6 +47,37 @@ Theorem C37_zero_disables : forall t0 arrivals t,
   closed_by 0 (run 0 (Open t0) arrivals) t = false.
 Proof. exact zero_disables. Qed.
 
+(* Histories that mix inbound packets with what the broker itself writes to the connection
+   (deliveries, retained messages, wills): the writes are no-ops for the keepalive state, so the
+   connection is closed exactly 1.5 K s after the last INBOUND packet whatever the outbound traffic. *)
+Theorem C37_outbound_irrelevant : forall K c h, run_ev K c h = run K c (inbounds h).
+Proof. exact (fun K c h => run_ev_inbounds K h c). Qed.
+
+Theorem C37_mixed_closes_by : forall K t0 h t, 0 < K <= 65535 ->
+  ordered_from t0 (inbounds h) ->
+  last (inbounds h) t0 + 1500 * K <= t ->
+  closed_by K (run_ev K (Open t0) h) t = true.
+Proof. exact mixed_closes_by. Qed.
+
+Theorem C37_mixed_never_early : forall K t0 h t, 0 <= K <= 65535 ->
+  gaps_below t0 (inbounds h) (1500 * K) ->
+  t < last (inbounds h) t0 + 1500 * K ->
+  run_ev K (Open t0) h = Open (last (inbounds h) t0) /\
+  closed_by K (run_ev K (Open t0) h) t = false.
+Proof. exact mixed_never_early. Qed.
+
+(* a connection that only receives is closed 1.5 K s after it was armed, however often the broker
+   writes to it *)
+Theorem C37_writes_do_not_extend : forall K t0 outs t, 0 < K <= 65535 -> t0 + 1500 * K <= t ->
+  closed_by K (run_ev K (Open t0) (map HOut outs)) t = true.
+Proof. exact writes_do_not_extend. Qed.
+
+Example C37_mixed_nonvacuous :
+  run_ev 1 (Open 0) [HIn 100; HOut 600; HOut 1100; HOut 1590; HIn 1650] = Closed 1600 /\
+  closed_by 1 (run_ev 1 (Open 0) [HIn 100; HOut 600; HOut 1100; HOut 1590]) 1599 = false /\
+  closed_by 1 (run_ev 1 (Open 0) [HIn 100; HOut 600; HOut 1100; HOut 1590]) 1600 = true.
+Proof. vm_compute. repeat split. Qed.
+
 (* non-vacuity: keepalive 1, packets 1.25 s apart survive, 1.5 s of silence closes; keepalive
    65535 has the full 98302.5 s *)
 Example C37_nonvacuous :
@@ -72,3 +103,7 @@ Print Assumptions C37_closes_by.
 Print Assumptions C37_never_early.
 Print Assumptions C37_late_packet_not_read.
 Print Assumptions C37_zero_disables.
+Print Assumptions C37_outbound_irrelevant.
+Print Assumptions C37_mixed_closes_by.
+Print Assumptions C37_mixed_never_early.
+Print Assumptions C37_writes_do_not_extend.
